@@ -49,17 +49,27 @@ def overrides(world, ctx):
         den = s.val & t.val & world.inh
         return some(fresh(den)) if den else NONE
 
+    def _wrap_pieces(interp, lst):
+        """the answer in the shape the crate's BoundSet::difference has: Option<Vec<_>> (None = nothing left) or Vec<_>"""
+        key = "range::BoundSet::difference"
+        plain = False
+        if interp.prog.has_body(key):
+            plain = interp.prog.ty_str(interp.prog.body(key)["locals"][0]).startswith("std::vec::Vec<")
+        if plain:
+            return lst if lst is not None else ListV(())
+        return some(lst) if lst is not None else NONE
+
     def o_difference(interp, args, info):
         s, t = tok(interp, args[0]), tok(interp, args[1])
         den = s.val & ~t.val & world.inh
         if not den:
-            return NONE
+            return _wrap_pieces(interp, None)
         bits = [i for i in range(den.bit_length()) if den >> i & 1]
         # one piece, or any split into two non-empty disjoint pieces (first piece holds the lowest bit)
         nsplit = (1 << (len(bits) - 1)) - 1
         d = ctx.choose("difference-split", 1 + nsplit)
         if d == 0:
-            return some(ListV([fresh(den)]))
+            return _wrap_pieces(interp, ListV([fresh(den)]))
         p1 = 1 << bits[0]
         rest = bits[1:]
         # d in 1..nsplit selects a proper subset of `rest` to join piece 1 (all but "everything")
@@ -68,7 +78,7 @@ def overrides(world, ctx):
             if sel >> j & 1:
                 p1 |= 1 << b
         p2 = den & ~p1
-        return some(ListV([fresh(p1), fresh(p2)]))
+        return _wrap_pieces(interp, ListV([fresh(p1), fresh(p2)]))
 
     def o_allows_any(interp, args, info):
         s, t = tok(interp, args[0]), tok(interp, args[1])
